@@ -114,6 +114,9 @@ func (s *Session) prescan() {
 		}
 	}
 	sort.Strings(S.boxOrder)
+	sort.Strings(S.structOrder)
+	sort.Strings(S.mapOrder)
+	sort.Strings(S.heapOrder)
 }
 
 func hasTypeParam(t types.Type) bool {
@@ -234,7 +237,7 @@ func (s *Session) decls(vc *FuncVC) string {
 // (a contradictory prelude would make every obligation pass vacuously).
 func (s *Session) preludeConsistency(dir string) string {
 	q := "(set-logic ALL)\n" + fullDecls(s.S, s.Prelude, nil) + "\n(check-sat)\n"
-	r := solveOne(dir, "prelude-consistency", q, 8000, false)
+	r := solveOne(dir, "prelude-consistency", q, 2500, false)
 	if r.Status == "unsat" {
 		return "the prelude axioms are contradictory (" + r.Solver + " refutes them)"
 	}
@@ -412,19 +415,24 @@ type evObl struct {
 	Src    string `json:"contract_src,omitempty"`
 }
 
+var noEvidence bool
+
 func cmdCheck(args []string) int {
 	fs := flag.NewFlagSet("check", flag.ExitOnError)
 	repo := fs.String("repo", "/repo", "")
 	verif := fs.String("verif", "/verif", "")
 	prop := fs.String("prop", "", "property id")
 	tier := fs.String("tier", "quick", "quick|thorough")
+	noev := fs.Bool("noevidence", false, "do not write evidence/replay files (selftest runs)")
 	fs.Parse(args)
+	noEvidence = *noev
 	if *prop == "" {
 		fmt.Fprintln(os.Stderr, "govc check: --prop required")
 		return 2
 	}
 	t0 := time.Now()
 	seed, _ := strconv.Atoi(os.Getenv("VERIF_SEED"))
+	solverSeed = seed
 	s, err := openSession(*repo, *verif)
 	if err != nil {
 		fmt.Fprintln(os.Stderr, "govc: engine error:", err)
@@ -538,6 +546,25 @@ func report(s *Session, prop, tier string, seed int, vcs []*FuncVC, filter func(
 			}
 		}
 		if vc.Status != "contract" {
+			if ct, ok := s.C.Funcs[vc.Key]; ok && !ct.Implicit && s.P.ByKey[vc.Key] != nil {
+				// The written contract no longer fits the code (a loop it annotates is gone, a name it
+				// mentions does not exist, the body left the supported subset): its obligations were
+				// discharged on the pinned tree and cannot be discharged any more.
+				o := &Obligation{Name: shortName(vc.Key) + "#contract_applicable", Kind: "contract_applicable", Func: vc.Key, Src: ct.Src,
+					Goal: "contract matches the code", Result: &SolveResult{Status: "unknown", Output: strings.Join(vc.Errs, "; "), Tried: []string{"generator: " + strings.Join(vc.Errs, "; ")}}}
+				total++
+				obls = append(obls, evObl{o.Name, o.Kind, vc.Key, "inapplicable", "generator", 0, o.Src})
+				isKnown := false
+				for _, kf := range known {
+					if !kf.Fixed && kf.Prop == prop && kf.Obl == o.Name {
+						isKnown = true
+					}
+				}
+				if !isKnown {
+					violations = append(violations, writeReplay(s, prop, vc, o, qdir, timeout))
+				}
+				continue
+			}
 			engineErrs = append(engineErrs, fmt.Sprintf("%s: %s", vc.Key, strings.Join(vc.Errs, "; ")))
 			continue
 		}
@@ -634,9 +661,11 @@ func report(s *Session, prop, tier string, seed int, vcs []*FuncVC, filter func(
 		"wall_s":      time.Since(t0).Seconds(),
 		"violations":  len(violations),
 	}
-	os.MkdirAll(filepath.Join(s.Verif, "evidence"), 0o755)
-	data, _ := json.MarshalIndent(ev, "", " ")
-	os.WriteFile(filepath.Join(s.Verif, "evidence", prop+".json"), data, 0o644)
+	if !noEvidence {
+		os.MkdirAll(filepath.Join(s.Verif, "evidence"), 0o755)
+		data, _ := json.MarshalIndent(ev, "", " ")
+		os.WriteFile(filepath.Join(s.Verif, "evidence", prop+".json"), data, 0o644)
+	}
 	fmt.Printf("govc: property %s tier %s: %d obligations, %d discharged, %d violations, %d engine errors, %.1fs\n", prop, tier, total, discharged, len(violations), len(engineErrs), time.Since(t0).Seconds())
 	for _, e := range engineErrs {
 		fmt.Printf("ENGINE-ERROR: %s\n", e)
@@ -686,7 +715,9 @@ func writeReplay(s *Session, prop string, vc *FuncVC, o *Obligation, qdir string
 	} else {
 		fmt.Fprintf(&b, "\nno model available (solver output: %s)\n", o.Result.Output)
 	}
-	os.WriteFile(path, []byte(b.String()), 0o644)
+	if !noEvidence {
+		os.WriteFile(path, []byte(b.String()), 0o644)
+	}
 	return fmt.Sprintf("VIOLATION property=%s replay=%s obligation=%s%s", prop, path, o.Name, suffix)
 }
 
